@@ -1,4 +1,350 @@
+/-
+C11 — relation queries return exactly the declared relations; `relation_map` keeps relations
+that differ only in dc:type apart; closures and relation paths terminate and are duplicate-free.
+Theorems over `Model/Query.lean` / `Model/Api.lean` for every database.
+-/
 import WnVerif.Model.Api
+import WnVerif.Lemmas.DbAux
 namespace WnVerif.Props.C11
-theorem placeholder_true : True := trivial
+open WnVerif.Db
+
+/-- a declared synset relation visible from scope `lexids`: the relation row and its target are
+owned by lexicons in scope and the type passes the filter -/
+def DeclaredSynRel (db : Db) (source : Nat) (types : List String) (lexids : List Nat) (r : RelData SynsetData) : Prop :=
+  ∃ row ∈ db.synrels, row.source = source ∧ row.lex ∈ lexids ∧ typeOk db types row.type = some r.name ∧
+    ∃ tgt, db.synsets.find? (fun x => x.rowid == row.target) = some tgt ∧ tgt.lex ∈ lexids ∧
+      r.lexicon = lexSpec db row.lex ∧ r.md = row.md ∧ r.source = row.source ∧ r.target = synsetData db tgt
+
+/-- soundness: everything `get_synset_relations` reports is declared (right name, source, target,
+defining lexicon and metadata) -/
+theorem C11_synset_relations_sound (db : Db) (x : Nat) (types : List String) (lexids : List Nat)
+    (r : RelData SynsetData) (h : r ∈ synsetRelations db [x] types lexids) : DeclaredSynRel db x types lexids r := by
+  unfold synsetRelations at h
+  have h' := mem_dedupBy _ _ r h
+  simp only [List.mem_filterMap] at h'
+  obtain ⟨row, hrow, hr⟩ := h'
+  split at hr
+  · rename_i hc
+    simp only [Bool.and_eq_true, inLex, List.contains_iff_mem, List.mem_singleton] at hc
+    split at hr
+    · rename_i n tgt hn ht
+      split at hr
+      · rename_i hl
+        simp only [inLex, List.contains_iff_mem] at hl
+        simp at hr; subst hr
+        exact ⟨row, hrow, hc.1, hc.2, hn, tgt, ht, hl, rfl, rfl, rfl, rfl⟩
+      · simp at hr
+    · simp at hr
+  · simp at hr
+
+/-- completeness: every declared relation is reported (up to the `DISTINCT` of the query:
+a relation with the same name, lexicon, metadata, source and target is in the result) -/
+theorem C11_synset_relations_complete (db : Db) (x : Nat) (types : List String) (lexids : List Nat)
+    (r : RelData SynsetData) (h : DeclaredSynRel db x types lexids r) :
+    ∃ r' ∈ synsetRelations db [x] types lexids,
+      r'.name = r.name ∧ r'.lexicon = r.lexicon ∧ r'.md = r.md ∧ r'.source = r.source ∧ r'.target.rowid = r.target.rowid := by
+  obtain ⟨row, hrow, hs, hl, hn, tgt, ht, htl, h1, h2, h3, h4⟩ := h
+  unfold synsetRelations
+  have hin : ({ name := r.name, lexicon := lexSpec db row.lex, md := row.md, source := row.source, target := synsetData db tgt } : RelData SynsetData) ∈
+      db.synrels.filterMap (fun r =>
+        if [x].contains r.source && inLex lexids r.lex then
+          match typeOk db types r.type, db.synsets.find? (fun x => x.rowid == r.target) with
+          | some n, some tgt => if inLex lexids tgt.lex then
+              some ({ name := n, lexicon := lexSpec db r.lex, md := r.md, source := r.source, target := synsetData db tgt } : RelData SynsetData)
+            else none
+          | _, _ => none
+        else none) := by
+    simp only [List.mem_filterMap]
+    refine ⟨row, hrow, ?_⟩
+    have c1 : ([x].contains row.source && inLex lexids row.lex) = true := by
+      simp [inLex, hs, hl]
+    simp only [c1, if_true, hn, ht]
+    have c2 : inLex lexids tgt.lex = true := by simp [inLex, htl]
+    simp [c2]
+  obtain ⟨y, hy, hk⟩ := key_mem_dedupBy (fun r : RelData SynsetData => (r.name, r.lexicon, r.md, r.source, r.target.rowid)) _ _ hin
+  simp only [Prod.mk.injEq] at hk
+  exact ⟨y, hy, hk.1, by rw [hk.2.1, h1], by rw [hk.2.2.1, h2], by rw [hk.2.2.2.1, h3], by rw [hk.2.2.2.2, h4]⟩
+
+/-- the type restriction: a reported relation's name is one of the requested types (or no type /
+`*` was requested) and is the stored name of the row's type -/
+theorem C11_types_restricted (db : Db) (types : List String) (t : Nat) (n : String) (h : typeOk db types t = some n) :
+    lookupName db.reltypes t = some n ∧ (types = [] ∨ "*" ∈ types ∨ n ∈ types) := by
+  unfold typeOk at h
+  split at h
+  · rename_i m hm
+    split at h
+    · rename_i hc
+      simp at h; subst h
+      refine ⟨hm, ?_⟩
+      simp only [Bool.or_eq_true, List.isEmpty_iff, List.contains_iff_mem] at hc
+      rcases hc with (hc | hc) | hc
+      · exact Or.inl hc
+      · exact Or.inr (Or.inl hc)
+      · exact Or.inr (Or.inr hc)
+    · simp at h
+  · simp at h
+
+/-! ### relation_map -/
+
+theorem relationMap_step_keys {τ} (acc : List (RelObs × τ)) (p : RelObs × τ) :
+    let acc' := if acc.any (fun q => relKey q.1 == relKey p.1)
+      then acc.map (fun q => if relKey q.1 == relKey p.1 then (q.1, p.2) else q) else acc ++ [p]
+    acc'.map (fun q => relKey q.1) =
+      if acc.any (fun q => relKey q.1 == relKey p.1) then acc.map (fun q => relKey q.1) else acc.map (fun q => relKey q.1) ++ [relKey p.1] := by
+  intro acc'
+  show List.map _ (if _ then _ else _) = _
+  split
+  · rw [List.map_map]
+    apply List.map_congr_left
+    intro q _
+    simp only [Function.comp]
+    split <;> rfl
+  · simp
+
+/-- keys of the map: first occurrences of the keys of the input, in order -/
+def keysOf {κ} [BEq κ] (l : List κ) : List κ := l.foldl (fun acc k => if acc.contains k then acc else acc ++ [k]) []
+
+theorem relationMap_keys {τ} (l : List (RelObs × τ)) :
+    (relationMap l).map (fun q => relKey q.1) = keysOf (l.map (fun q => relKey q.1)) := by
+  unfold relationMap keysOf
+  suffices ∀ (l : List (RelObs × τ)) (acc : List (RelObs × τ)),
+      (l.foldl (fun acc (p : RelObs × τ) =>
+        if acc.any (fun q => relKey q.1 == relKey p.1)
+        then acc.map (fun q => if relKey q.1 == relKey p.1 then (q.1, p.2) else q)
+        else acc ++ [p]) acc).map (fun q => relKey q.1) =
+      (l.map (fun q => relKey q.1)).foldl (fun acc k => if acc.contains k then acc else acc ++ [k]) (acc.map (fun q => relKey q.1)) by
+    simpa using this l []
+  intro l
+  induction l with
+  | nil => intro acc; simp
+  | cons p t ih =>
+    intro acc
+    simp only [List.foldl_cons, List.map_cons]
+    rw [ih]
+    congr 1
+    rw [relationMap_step_keys]
+    have : (acc.any fun q => relKey q.1 == relKey p.1) = (acc.map (fun q => relKey q.1)).contains (relKey p.1) := by
+      induction acc with
+      | nil => simp
+      | cons a t iha =>
+        simp only [List.any_cons, List.map_cons, List.contains_cons, iha]
+        rw [Bool.beq_comm]
+    rw [this]
+
+theorem keysOf_aux_nodup {κ} [BEq κ] [LawfulBEq κ] (l : List κ) : ∀ (acc : List κ), acc.Nodup →
+    (l.foldl (fun acc k => if acc.contains k then acc else acc ++ [k]) acc).Nodup := by
+  induction l with
+  | nil => intro acc h; simpa
+  | cons a t ih =>
+    intro acc h
+    simp only [List.foldl_cons]
+    apply ih
+    split
+    · exact h
+    · rename_i hc
+      rw [List.nodup_append]
+      refine ⟨h, by simp, ?_⟩
+      intro x hx y hy
+      simp at hy; subst hy
+      intro e; subst e
+      simp at hc; exact hc hx
+
+theorem keysOf_aux_mem {κ} [BEq κ] [LawfulBEq κ] (l : List κ) : ∀ (acc : List κ) (k : κ),
+    k ∈ l.foldl (fun acc k => if acc.contains k then acc else acc ++ [k]) acc ↔ k ∈ acc ∨ k ∈ l := by
+  induction l with
+  | nil => intro acc k; simp
+  | cons a t ih =>
+    intro acc k
+    simp only [List.foldl_cons, ih, List.mem_cons]
+    split
+    · rename_i hc
+      simp at hc
+      constructor
+      · rintro (h | h)
+        · exact Or.inl h
+        · exact Or.inr (Or.inr h)
+      · rintro (h | h | h)
+        · exact Or.inl h
+        · subst h; exact Or.inl hc
+        · exact Or.inr h
+    · simp only [List.mem_append, List.mem_singleton]
+      constructor
+      · rintro ((h | h) | h)
+        · exact Or.inl h
+        · exact Or.inr (Or.inl h)
+        · exact Or.inr (Or.inr h)
+      · rintro (h | h | h)
+        · exact Or.inl (Or.inl h)
+        · exact Or.inl (Or.inr h)
+        · exact Or.inr h
+
+/-- `relation_map()` has exactly one entry per distinct relation key… -/
+theorem C11_relation_map_keys_nodup {τ} (l : List (RelObs × τ)) : ((relationMap l).map (fun q => relKey q.1)).Nodup := by
+  rw [relationMap_keys]
+  exact keysOf_aux_nodup _ [] (by simp)
+
+/-- … and the keys are exactly the keys of the iterated relations: nothing is lost, nothing invented -/
+theorem C11_relation_map_keys_exact {τ} (l : List (RelObs × τ)) (k) :
+    k ∈ (relationMap l).map (fun q => relKey q.1) ↔ k ∈ l.map (fun q => relKey q.1) := by
+  rw [relationMap_keys]
+  unfold keysOf
+  rw [keysOf_aux_mem]; simp
+
+/-- relations that differ only in their dc:type have different keys, hence both stay in the map -/
+theorem C11_dc_type_distinguishes (a b : RelObs) (ta tb : String) (ma mb : Doc.Meta)
+    (ha : a.md = some ma) (hb : b.md = some mb)
+    (hta : (ma.find? (fun kv => kv.1 == "type")).map (·.2) = some ta)
+    (htb : (mb.find? (fun kv => kv.1 == "type")).map (·.2) = some tb) (hne : ta ≠ tb) :
+    relKey a ≠ relKey b := by
+  unfold relKey
+  rw [ha, hb]
+  simp only [hta, htb]
+  intro h
+  simp only [Prod.mk.injEq] at h
+  exact hne (by simpa using h.2.2.2.2)
+
+/-! ### get_related / closure / relation_paths -/
+
+theorem C11_get_related_nodup (db : Db) (w : Wordnet) (x : SynsetData) (types : List String) :
+    ((synsetGetRelated db w x types).map synKey).Nodup := dedupBy_nodup _ _
+
+theorem C11_get_related_targets (db : Db) (w : Wordnet) (x : SynsetData) (types : List String) (y : SynsetData)
+    (h : y ∈ synsetGetRelated db w x types) : ∃ p ∈ synsetIterRelations db w x types, p.2 = y := by
+  have := mem_dedupBy _ _ y h
+  simpa using this
+
+/-- reachability over `related` -/
+inductive Reach {α} (related : α → List α) : List α → α → Prop
+  | base {q x} : x ∈ q → Reach related q x
+  | step {q x y} : Reach related q x → y ∈ related x → Reach related q y
+
+theorem Reach.mono {α} {related : α → List α} {q q' : List α} (h : ∀ x ∈ q, Reach related q' x) {y : α}
+    (hy : Reach related q y) : Reach related q' y := by
+  induction hy with
+  | base hx => exact h _ hx
+  | step _ hr ih => exact Reach.step ih hr
+
+theorem nodup_reverse' {α κ} (key : α → κ) {acc : List α} (h : (acc.map key).Nodup) : (acc.reverse.map key).Nodup := by
+  rw [List.map_reverse]
+  unfold List.Nodup at *
+  rw [List.pairwise_reverse]
+  exact h.imp (fun hab => fun e => hab e.symm)
+
+/-- `closure()`: terminates (structural recursion on the fuel), yields no entity twice, and only
+entities reachable from the start set over the given relation -/
+theorem closureGen_inv {α κ} [BEq κ] [LawfulBEq κ] (related : α → List α) (key : α → κ) (start : List α) :
+    ∀ (f : Nat) (q : List α) (seen : List κ) (acc : List α),
+      (∀ x ∈ q, Reach related start x) → (∀ x ∈ acc, Reach related start x) →
+      (acc.map key).Nodup → (∀ x ∈ acc, key x ∈ seen) → (∀ k ∈ seen, ∃ x ∈ acc, key x = k) →
+      (∀ x ∈ closureGen related key f q seen acc, Reach related start x) ∧
+      ((closureGen related key f q seen acc).map key).Nodup := by
+  intro f
+  induction f with
+  | zero =>
+    intro q seen acc _ hacc hnd _ _
+    cases q <;> simp only [closureGen] <;>
+      exact ⟨fun x hx => hacc x (List.mem_reverse.mp hx), nodup_reverse' key hnd⟩
+  | succ f ih =>
+    intro q seen acc hq hacc hnd hseen hseen'
+    cases q with
+    | nil =>
+      simp only [closureGen]
+      exact ⟨fun x hx => hacc x (List.mem_reverse.mp hx), nodup_reverse' key hnd⟩
+    | cons x q =>
+      simp only [closureGen]
+      split
+      · exact ih q seen acc (fun y hy => hq y (List.mem_cons_of_mem _ hy)) hacc hnd hseen hseen'
+      · rename_i hc
+        have hx : Reach related start x := hq x (List.mem_cons_self)
+        apply ih
+        · intro y hy
+          rcases List.mem_append.mp hy with hy | hy
+          · exact hq y (List.mem_cons_of_mem _ hy)
+          · exact Reach.step hx hy
+        · intro y hy
+          rcases List.mem_cons.mp hy with rfl | hy
+          · exact hx
+          · exact hacc y hy
+        · simp only [List.map_cons, List.nodup_cons]
+          refine ⟨?_, hnd⟩
+          intro hm
+          obtain ⟨y, hy, hk⟩ := List.mem_map.mp hm
+          have := hseen y hy
+          rw [hk] at this
+          simp at hc
+          exact hc this
+        · intro y hy
+          rcases List.mem_cons.mp hy with rfl | hy
+          · exact List.mem_cons_self
+          · exact List.mem_cons_of_mem _ (hseen y hy)
+        · intro k hk
+          rcases List.mem_cons.mp hk with rfl | hk
+          · exact ⟨x, List.mem_cons_self, rfl⟩
+          · obtain ⟨y, hy, hyk⟩ := hseen' k hk
+            exact ⟨y, List.mem_cons_of_mem _ hy, hyk⟩
+
+theorem C11_closure_sound_nodup (db : Db) (w : Wordnet) (x : SynsetData) (types : List String) (n : Nat) :
+    (∀ y ∈ synsetClosure db w x types n, Reach (fun y => synsetGetRelated db w y types) (synsetGetRelated db w x types) y) ∧
+    ((synsetClosure db w x types n).map synKey).Nodup := by
+  unfold synsetClosure
+  exact closureGen_inv _ _ _ _ _ [] [] (fun x hx => Reach.base hx) (by simp) (by simp) (by simp) (by simp)
+
+theorem C11_sense_closure_sound_nodup (db : Db) (w : Wordnet) (x : SenseData) (types : List String) (n : Nat) :
+    (∀ y ∈ senseClosure db w x types n, Reach (fun y => senseGetRelated db w y types) (senseGetRelated db w x types) y) ∧
+    ((senseClosure db w x types n).map (·.rowid)).Nodup := by
+  unfold senseClosure
+  exact closureGen_inv _ _ _ _ _ [] [] (fun x hx => Reach.base hx) (by simp) (by simp) (by simp) (by simp)
+
+/-- `relation_paths()`: every path is simple — no synset of the path repeats and none is in the
+visited set the search started with; termination is structural -/
+theorem synPaths_simple (related : SynsetData → List SynsetData) :
+    ∀ (f : Nat) (vis : List (Option String × Nat × Nat)) (x : SynsetData) (p : List SynsetData),
+      p ∈ synPathsExtend related f vis x → (p.map synKey).Nodup ∧ ∀ y ∈ p, synKey y ∉ vis := by
+  intro f
+  induction f with
+  | zero => intro vis x p h; simp [synPathsExtend] at h
+  | succ f ih =>
+    intro vis x p h
+    simp only [synPathsExtend] at h
+    split at h
+    · simp at h; subst h; simp
+    · simp only [List.mem_flatMap, List.mem_map, List.mem_filter] at h
+      obtain ⟨t, ⟨_, ht⟩, q, hq, rfl⟩ := h
+      obtain ⟨hnd, hvis⟩ := ih (synKey t :: vis) t q hq
+      have ht' : synKey t ∉ vis := by simpa using ht
+      refine ⟨?_, ?_⟩
+      · simp only [List.map_cons, List.nodup_cons]
+        refine ⟨?_, hnd⟩
+        intro hm
+        obtain ⟨y, hy, hk⟩ := List.mem_map.mp hm
+        exact hvis y hy (by rw [hk]; exact List.mem_cons_self)
+      · intro y hy
+        rcases List.mem_cons.mp hy with rfl | hy
+        · exact ht'
+        · intro hv
+          exact hvis y hy (List.mem_cons_of_mem _ hv)
+
+theorem C11_relation_paths_simple (db : Db) (w : Wordnet) (x : SynsetData) (types : List String) (n : Nat)
+    (p : List SynsetData) (h : p ∈ synsetRelationPaths db w x types n) :
+    (p.map synKey).Nodup ∧ ∀ y ∈ p, synKey y ≠ synKey x := by
+  unfold synsetRelationPaths at h
+  simp only [List.mem_flatMap, List.mem_map, List.mem_reverse, List.mem_filter] at h
+  obtain ⟨t, ⟨_, htx⟩, q, hq, rfl⟩ := h
+  obtain ⟨hnd, hvis⟩ := synPaths_simple _ n _ t q hq
+  refine ⟨?_, ?_⟩
+  · simp only [List.map_cons, List.nodup_cons]
+    refine ⟨?_, hnd⟩
+    intro hm
+    obtain ⟨y, hy, hk⟩ := List.mem_map.mp hm
+    exact hvis y hy (by rw [hk]; simp)
+  · intro y hy
+    rcases List.mem_cons.mp hy with rfl | hy
+    · intro e
+      have : y.rowid = x.rowid := by
+        have := congrArg (fun k => k.2.2) e
+        simpa [synKey] using this
+      simp [this] at htx
+    · intro e
+      exact hvis y hy (by rw [e]; simp)
+
 end WnVerif.Props.C11
